@@ -54,6 +54,12 @@ HOOKS = ['HPossible', 'HNotAvailable', 'HNotRequired', 'HNotPossible', 'HFailed'
          'HJunk', 'HRaiseIO', 'HRaiseOther']
 HOOK_MODULE = '''
 import builtins
+# the module is executed at every restart attempt (import_hooks_restart): it may fail while it is imported
+builtins._verif_c12_loads = getattr(builtins, '_verif_c12_loads', 0) + 1
+_h = getattr(builtins, '_verif_c12_hook', '')
+if _h.startswith('HLoad:') and _h != 'HLoad:no-restart':
+    builtins._verif_c12_raise[_h[6:]]()
+    raise SystemError('verif: the selected action did not raise')
 def Restart(workingDirectory, restarts, componentName, log, exitReason, exitCode):
     builtins._verif_c12_calls = getattr(builtins, '_verif_c12_calls', 0) + 1
     h = builtins._verif_c12_hook
@@ -71,6 +77,8 @@ def Restart(workingDirectory, restarts, componentName, log, exitReason, exitCode
         builtins._verif_c12_raise[h[7:]]()
         raise SystemError('verif: the selected action did not raise')
     raise ValueError('verif')
+if _h == 'HLoad:no-restart':
+    del Restart
 '''
 
 
@@ -160,7 +168,7 @@ def _raise_actions():
         'UnpicklingError': raiser(pickle.UnpicklingError), 'CalledProcessError': failing_cmd,
         'TimeoutExpired': raiser(subprocess.TimeoutExpired, 'cmd', 1), 'Exception': raiser(Exception),
         'HookError': raiser(HookError), 'HookLookupValueError': raiser(HookLookupValueError),
-        'SystemError': raiser(SystemError), 'BufferError': raiser(BufferError), 'Warning': raiser(UserWarning),
+        'SyntaxError': lambda: compile('def (', 'restart.py', 'exec'), 'SystemError': raiser(SystemError), 'BufferError': raiser(BufferError), 'Warning': raiser(UserWarning),
         # the IOError family ("not a DLMESO job"): IOError, its aliases and subclasses
         'OSError': raiser(OSError), 'EnvironmentError': raiser(EnvironmentError), 'open-missing': open_missing,
         'open-dir': open_dir, 'open-under-file': open_under_file, 'listdir-missing': listdir_missing,
@@ -201,9 +209,24 @@ def hook_refuses(h):
     return h in REFUSING
 
 
-def coq_hook(h):
+def load_broken(h):
+    """'HLoad:<key>': the hook module raises <key> while it is imported / 'HLoad:no-restart': it defines no Restart.
+    Broken = not one of the two exceptions that mean 'the package has no such hook' (ImportError, IOError)"""
+    if not h.startswith('HLoad:'):
+        return False
+    return h == 'HLoad:no-restart' or not issubclass(RAISE_CLASS[h[6:]], (ImportError, IOError))
+
+
+LOADS = ['HLoad:' + k for k in sorted(RAISE_CLASS)] + ['HLoad:no-restart']
+
+
+def coq_hook(h, reason='Success'):
     if h.startswith('HRaise:'):
         return '(raise_out %s)' % clist([cstr(n) for n in RAISE_MRO[h[7:]]])
+    if h == 'HLoad:no-restart':
+        return '(hook_after_load LoadNoRestart %s HJunk)' % reason
+    if h.startswith('HLoad:'):
+        return '(hook_after_load (LoadRaises %s) %s HJunk)' % (clist([cstr(n) for n in RAISE_MRO[h[6:]]]), reason)
     return h
 
 
@@ -505,13 +528,14 @@ class Driver(object):
                 runs0 = self.runs[0]
                 got.clear()
                 builtins._verif_c12_calls = 0
+                builtins._verif_c12_loads = 0
                 try:
                     self.ctl.postMortemCheck({}, cs)
                     code = codes.get(got.get('code'), 'EXC:%s' % got.get('code'))
                 except Exception as error:     # postMortemCheck itself must not raise
                     code = 'EXC:postMortemCheck raised %s' % type(error).__name__
                 obs.append((code, eng.restarts, eng.resubmissionAttempts()))
-                self.hook_calls.append(builtins._verif_c12_calls)
+                self.hook_calls.append((builtins._verif_c12_calls, builtins._verif_c12_loads))
                 if not cfg['is_rep']:
                     views.append(self.view(eng))
                 started = self.runs[0] - runs0
@@ -554,7 +578,7 @@ def coq_launch(ev):
 def coq_hist(h):
     """launch history (l_ev): how each exit came about, the hook's behaviour, the stability verdict, run() outcome"""
     return clist(['{| lv_launch := %s; lv_hook := %s; lv_stable := %s; lv_run_ok := %s |}' % (
-        coq_launch(ev), coq_hook(ev[1]), cbool(ev[2]), cbool(ev[3])) for ev in h])
+        coq_launch(ev), coq_hook(ev[1], LAUNCH_REASON.get(ev_kind(ev), ev[0])), cbool(ev[2]), cbool(ev[3])) for ev in h])
 
 
 FIN = {'finished': 'Finished', 'component_shutdown': 'Shutdown', 'failed': 'Failed'}
@@ -665,7 +689,11 @@ def predicate(ctx, cfg, hist, obs, final, views=(), fresh=None, extra=None, call
     case = dict(extra or {}, cfg=cfg, hist=hist, obs=obs, final=final)
     # a restart hook that was consulted and refused - by its answer or by failing (raising anything but the IOError
     # that means 'not a DLMESO job') - is obeyed: the task is not started again (C12_hook_power / C12_raising_hook)
-    for ev, (code, _, _), n in zip(hist, obs, calls):
+    for ev, (code, _, _), (n, loads) in zip(hist, obs, calls):
+        if loads >= 1 and code == 'Initiated' and load_broken(ev[1]):
+            ctx.fail(case, 'task started again although the restart hook of the package is broken (%s while it is loaded, '
+                           'exit reason %s): only a hook that cannot be imported (ImportError / IOError) is a missing hook' % (
+                               ev[1][6:], ev[0]), cls)
         if n > 1:
             ctx.fail(case, 'the restart hook was called %d times for one exit' % n, cls)
         if n >= 1 and code == 'Initiated' and hook_refuses(ev[1]):
@@ -750,6 +778,9 @@ def gen_hist(rng, cfg, n):
     pool = list(cfg['hook_on']) * 3 + ['SubmissionFailed'] * 3 + REASONS
     for _ in range(n):
         ev = (rng.choice(pool), rng.choice(HOOKS + ['HPossible'] * 6), rng.random() < 0.75, rng.random() < 0.95)
+        if rng.random() < 0.06:
+            # the hook module fails while it is imported (or has no Restart): it is never called
+            ev = (ev[0], rng.choice(LOADS)) + ev[2:]
         if ev[1] in ('HRaiseIO', 'HRaiseOther') and rng.random() < 0.85:
             # a raising hook raises SOMETHING: draw the exception (same side of the IOError divide as the bare outcome)
             ev = (ev[0], 'HRaise:' + rng.choice(RAISE_IO if ev[1] == 'HRaiseIO' else RAISE_OTHER)) + ev[2:]
@@ -825,11 +856,19 @@ def raise_family(rng, tier):
         out.append((c, [(r, hk, True, True)] * 3))
         out.append(((base, named)[i % 2], [('KnownIssue', 'HPossible', True, True), ('ResourceExhausted', hk, i % 3 != 0, True),
                                            ('KnownIssue', 'HTrue', True, True)]))
+        # the same exception raised by the MODULE while it is imported: ImportError / IOError = no hook in the package
+        # (fallback hook: vanilla restart after ResourceExhausted, refusal after KnownIssue), anything else = broken hook
+        ld = 'HLoad:' + key
+        out.append(((named, base)[i % 2], [('ResourceExhausted', ld, True, True)] * (7, 5)[i % 2]))
+        out.append((c, [('KnownIssue', 'HPossible', True, True), (r, ld, True, True), (r, 'HPossible', True, True)]))
+    for c in (base, named, others[0], others[1], others[2]):
+        out.append((c, [('ResourceExhausted', 'HLoad:no-restart', True, True)] * 5))
+        out.append((c, [('KnownIssue', 'HTrue', True, True), ('KnownIssue', 'HLoad:no-restart', True, True)]))
     for _ in range(20 if tier == 'quick' else 400):
         c = dict(rng.choice([base, named] + others))
         c['max_restarts'] = rng.choice(['absent', None, -1, 1, 2, 5])
         pool = ['HRaise:' + rng.choice(RAISE_IMPORT), 'HRaise:' + rng.choice(RAISE_OTHER), 'HRaise:' + rng.choice(RAISE_IO),
-                'HPossible', 'HNotAvailable']
+                rng.choice(LOADS), 'HPossible', 'HNotAvailable']
         out.append((c, [(rng.choice(c['hook_on']), rng.choice(pool), rng.random() < 0.8, rng.random() < 0.95)
                         for _ in range(rng.randint(2, 8))]))
     return out
@@ -995,7 +1034,7 @@ def run(ctx):
     rng = ctx.rng
     ctx.rule = ('exhaustive: every history of length <= L (quick 3, thorough 4; a history is extended only while restarts are '
                 'initiated - after a refusal no further exit is handled) over 8 exit reasons x {hook says possible, not required, raises} '
-                'for a grid of configurations; plus the raising-hook family (every exception x default / named / budgeted / not-consulted hook configurations, runs of 3-7 listed exits); plus long runs of failed submissions (5-14 exits, reported by '
+                'for a grid of configurations; plus the raising-hook family (every exception, raised by Restart() when called / by the hook module while it is imported, and a module without Restart, x default / named / budgeted / not-consulted hook configurations, runs of 3-7 listed exits); plus long runs of failed submissions (5-14 exits, reported by '
                 'the task / launch raising / mixed, with and without a Success or a continuation restart in between); plus random '
                 'configurations x random histories (length <= 12, all 11 hook behaviours, a raising hook raising one of ~65 exceptions (import family of a lazily importing hook, programming / data errors, IOError aliases and subclasses; classified by the model from the MRO), stability and run() oracles, 30% of the '
                 'SubmissionFailed/UnknownIssue exits produced by a failing launch); every exit of an ordinary engine goes through the '
@@ -1020,6 +1059,8 @@ def run(ctx):
     cases.append((lazy, [('ResourceExhausted', 'HRaise:lazy-import', True, True)] * 5))
     cases.append((dict(lazy, hook_file='HFNamed'), [('ResourceExhausted', 'HRaise:ImportError', True, True)] * 7))
     cases.append((dict(lazy, hook_file='HFNamed'), [('ResourceExhausted', 'HRaise:open-missing', True, True)] * 4))
+    cases.append((dict(lazy, hook_file='HFNamed'), [('ResourceExhausted', 'HLoad:SyntaxError', True, True)] * 4))
+    cases.append((lazy, [('ResourceExhausted', 'HLoad:lazy-import', True, True)] * 5))
     rfam = raise_family(rng, ctx.tier)
     ctx.count('raise_family', len(rfam))
     cases.extend(rfam)
